@@ -708,6 +708,16 @@ func (e *SpecEnv) evalCall(x *ECall) SV {
 				}
 				mh, _ := fc.mapComps(mt)
 				return SV{t: app("select", app("select", fc.comp(e.cur, mh, fc.comps[mh]), m.t), k.t), typ: boolT}
+			case "visited":
+				// visited(m, k): key k was already produced by the current `range m` (ext_mapiter.go)
+				m := e.eval(x.Args[0])
+				k := e.eval(x.Args[1])
+				mt, ok := types.Unalias(m.typ).Underlying().(*types.Map)
+				if !ok {
+					e.fail("visited() on non-map")
+				}
+				vk := fc.mapIterComp(mt)
+				return SV{t: app("select", app("select", fc.comp(e.cur, vk, fc.comps[vk]), m.t), k.t), typ: boolT}
 			case "val":
 				v := e.eval(x.Args[0])
 				return e.selectValue(v, "i")
